@@ -202,7 +202,7 @@ def run_check(prop, tier):
         chunk = max(1, min(200, n // (WORKERS * 4) or 1))
         for lo in range(0, n, chunk):
             tasks.append((prop, family, seed, lo, min(n, lo + chunk), tier))
-    wall_cap = getattr(mod, "WALL_CAP", {"quick": 600, "thorough": 3600})[tier]
+    wall_cap = getattr(mod, "WALL_CAP", {"quick": 900, "thorough": 7200})[tier]
     with ProcessPoolExecutor(max_workers=WORKERS, mp_context=ctx) as pool:
         futs = [pool.submit(_work, t) for t in tasks]
         for fut, task in zip(futs, tasks):
